@@ -12,9 +12,13 @@ import (
 	"strings"
 
 	"github.com/tink-crypto/tink-go/v2/aead"
+	"github.com/tink-crypto/tink-go/v2/aead/xchacha20poly1305"
 	"github.com/tink-crypto/tink-go/v2/core/registry"
 	"github.com/tink-crypto/tink-go/v2/daead"
+	"github.com/tink-crypto/tink-go/v2/daead/aessiv"
 	"github.com/tink-crypto/tink-go/v2/hybrid"
+	"github.com/tink-crypto/tink-go/v2/hybrid/ecies"
+	"github.com/tink-crypto/tink-go/v2/hybrid/hpke"
 	"github.com/tink-crypto/tink-go/v2/insecurecleartextkeyset"
 	"github.com/tink-crypto/tink-go/v2/jwt"
 	"github.com/tink-crypto/tink-go/v2/jwt/jwtmldsa"
@@ -222,6 +226,15 @@ func BuildPool() *Pool {
 		{name: "RSASSAPKCS1-3072-SHA256", class: "sig", tmpl: signature.RSA_SSA_PKCS1_3072_SHA256_F4_Key_Template(), slow: false},
 		{name: "RSASSAPSS-3072-SHA256-raw", class: "sig", tmpl: signature.RSA_SSA_PSS_3072_SHA256_32_F4_Raw_Key_Template(), slow: false},
 		P("MLDSA65", "sig", func() (key.Parameters, error) { return mldsa.NewParameters(mldsa.MLDSA65, mldsa.VariantTink) }),
+		P("MLDSA44", "sig", func() (key.Parameters, error) { return mldsa.NewParameters(mldsa.MLDSA44, mldsa.VariantTink) }),
+		T("ECDSAP384-DER-raw", "sig", signature.ECDSAP384KeyWithoutPrefixTemplate()),
+		T("ECDSAP521-raw", "sig", signature.ECDSAP521KeyWithoutPrefixTemplate()),
+		{name: "SLHDSA-SHAKE-128f-raw", class: "sig", slow: true, params: func() (key.Parameters, error) {
+			return slhdsa.NewParameters(slhdsa.SHAKE, 64, slhdsa.FastSigning, slhdsa.VariantNoPrefix)
+		}},
+		P("CompositeMLDSA65-ECDSAP256", "sig", func() (key.Parameters, error) {
+			return compositemldsa.NewParameters(compositemldsa.ECDSAP256, compositemldsa.MLDSA65, compositemldsa.VariantTink)
+		}),
 		P("MLDSA87-raw", "sig", func() (key.Parameters, error) { return mldsa.NewParameters(mldsa.MLDSA87, mldsa.VariantNoPrefix) }),
 		{name: "SLHDSA-SHA2-128s", class: "sig", slow: true, params: func() (key.Parameters, error) {
 			return slhdsa.NewParameters(slhdsa.SHA2, 64, slhdsa.SmallSignature, slhdsa.VariantTink)
@@ -237,6 +250,36 @@ func BuildPool() *Pool {
 		T("HPKE-X25519-CHACHA", "hyb", hybrid.DHKEM_X25519_HKDF_SHA256_HKDF_SHA256_CHACHA20_POLY1305_Key_Template()),
 		T("ECIES-P256-AES128GCM", "hyb", hybrid.ECIESHKDFAES128GCMKeyTemplate()),
 		T("ECIES-P256-AES128CTRHMAC", "hyb", hybrid.ECIESHKDFAES128CTRHMACSHA256KeyTemplate()),
+		P("HPKE-P384-SHA384-AES256GCM", "hyb", func() (key.Parameters, error) {
+			return hpke.NewParameters(hpke.ParametersOpts{KEMID: hpke.DHKEM_P384_HKDF_SHA384, KDFID: hpke.HKDFSHA384, AEADID: hpke.AES256GCM, Variant: hpke.VariantTink})
+		}),
+		P("HPKE-P521-SHA512-CHACHA-crunchy", "hyb", func() (key.Parameters, error) {
+			return hpke.NewParameters(hpke.ParametersOpts{KEMID: hpke.DHKEM_P521_HKDF_SHA512, KDFID: hpke.HKDFSHA512, AEADID: hpke.ChaCha20Poly1305, Variant: hpke.VariantCrunchy})
+		}),
+		P("HPKE-XWING-AES128GCM-raw", "hyb", func() (key.Parameters, error) {
+			return hpke.NewParameters(hpke.ParametersOpts{KEMID: hpke.X_WING, KDFID: hpke.HKDFSHA256, AEADID: hpke.AES128GCM, Variant: hpke.VariantNoPrefix})
+		}),
+		P("HPKE-MLKEM768-AES256GCM", "hyb", func() (key.Parameters, error) {
+			return hpke.NewParameters(hpke.ParametersOpts{KEMID: hpke.ML_KEM768, KDFID: hpke.HKDFSHA256, AEADID: hpke.AES256GCM, Variant: hpke.VariantTink})
+		}),
+		P("HPKE-MLKEM1024-AES256GCM-raw", "hyb", func() (key.Parameters, error) {
+			return hpke.NewParameters(hpke.ParametersOpts{KEMID: hpke.ML_KEM1024, KDFID: hpke.HKDFSHA384, AEADID: hpke.AES256GCM, Variant: hpke.VariantNoPrefix})
+		}),
+		P("ECIES-X25519-XCHACHA-raw", "hyb", func() (key.Parameters, error) {
+			dem, err := xchacha20poly1305.NewParameters(xchacha20poly1305.VariantNoPrefix)
+			if err != nil {
+				return nil, err
+			}
+			return ecies.NewParameters(ecies.ParametersOpts{CurveType: ecies.X25519, HashType: ecies.SHA256, DEMParameters: dem, Variant: ecies.VariantNoPrefix})
+		}),
+		P("ECIES-P521-compressed-AESSIV", "hyb", func() (key.Parameters, error) {
+			dem, err := aessiv.NewParameters(64, aessiv.VariantNoPrefix)
+			if err != nil {
+				return nil, err
+			}
+			return ecies.NewParameters(ecies.ParametersOpts{CurveType: ecies.NISTP521, HashType: ecies.SHA512, NISTCurvePointFormat: ecies.CompressedPointFormat,
+				DEMParameters: dem, Salt: []byte("ecies salt"), Variant: ecies.VariantTink})
+		}),
 		T("AES128GCMHKDF4KB", "saead", streamingaead.AES128GCMHKDF4KBKeyTemplate()),
 		T("AES256GCMHKDF4KB", "saead", streamingaead.AES256GCMHKDF4KBKeyTemplate()),
 		T("AES128CTRHMACSHA256Segment4KB", "saead", streamingaead.AES128CTRHMACSHA256Segment4KBKeyTemplate()),
